@@ -3,7 +3,10 @@ package mempub
 import (
 	"bytes"
 	"encoding/json"
+	"errors"
 	"fmt"
+	"runtime"
+	"strings"
 	"sync"
 	"sync/atomic"
 	"testing"
@@ -64,6 +67,8 @@ type c32Case struct {
 
 const c32Hour = 3_600_000
 
+const c32CloseWait = 20 * time.Second
+
 // uvarintLen is the length of the protobuf/canoto varint of n.
 func uvarintLen(n int) int {
 	l := 1
@@ -89,6 +94,75 @@ func c32MaxPayload(room int) int {
 		}
 	}
 	return best
+}
+
+// errC32Inconclusive: an operation did not return in time and there is no
+// positive evidence of a deadlock (slow machine): never a violation.
+var errC32Inconclusive = errors.New("INCONCLUSIVE: operation did not return in time")
+
+const c32FindingCloseDeadlock = "C32-close-timer-deadlock"
+
+// c32DeadlockEvidence looks for positive evidence that MessageBuffer.Close is
+// deadlocked with the flush timer: one goroutine inside Close waiting for the
+// timer's dispatch goroutine to end, and the timer's handler waiting for the
+// buffer's mutex that Close holds. Neither can ever proceed.
+func c32DeadlockEvidence(mb *pubsub.MessageBuffer) (bool, string) {
+	self := fmt.Sprintf("pubsub.(*MessageBuffer).Close(%p", mb) // this buffer, not one leaked by an earlier case
+	buf := make([]byte, 1<<20)
+	buf = buf[:runtime.Stack(buf, true)]
+	var closer, handler string
+	for _, g := range strings.Split(string(buf), "\n\n") {
+		switch {
+		case strings.Contains(g, self) && strings.Contains(g, "timer.(*Timer).Stop") && strings.Contains(g, "sync.(*WaitGroup).Wait"):
+			closer = g
+		case strings.Contains(g, "pubsub.NewMessageBuffer.func1") && strings.Contains(g, "sync.(*Mutex).Lock"):
+			handler = g
+		}
+	}
+	if closer != "" && handler != "" {
+		return true, closer + "\n\n" + handler
+	}
+	return false, ""
+}
+
+// c32Close calls Close with a deadline. hung=true: it did not return; deadlock
+// tells whether there is positive evidence that it never will.
+func c32Close(mb *pubsub.MessageBuffer, wait time.Duration) (err error, hung bool, deadlock bool, evidence string) {
+	done := make(chan error, 1)
+	go func() { done <- mb.Close() }()
+	// poll once a second; two consecutive looks showing the mutual wait are
+	// positive evidence of a deadlock (the cycle cannot resolve itself), a Close
+	// that is merely slow shows no such evidence and is waited for until `wait`
+	prev := false
+	for waited := time.Duration(0); waited < wait; waited += time.Second {
+		select {
+		case err = <-done:
+			return err, false, false, ""
+		case <-time.After(time.Second):
+		}
+		d, ev := c32DeadlockEvidence(mb)
+		if d && prev {
+			select {
+			case err = <-done:
+				return err, false, false, ""
+			default:
+			}
+			return nil, true, true, ev
+		}
+		prev = d
+	}
+	return nil, true, false, ""
+}
+
+func c32HangError(st *vstat.Stats, what string, deadlock bool, evidence string) error {
+	if !deadlock {
+		return errC32Inconclusive
+	}
+	if st.Known(c32FindingCloseDeadlock) {
+		st.Exclude(c32FindingCloseDeadlock)
+		return errC32Inconclusive
+	}
+	return fmt.Errorf("%s: Close never returns: it holds the buffer lock while waiting for the flush timer's goroutine, whose handler waits for that lock; every later Send blocks forever and Queue is never closed\n%s", what, evidence)
 }
 
 type c32CountLog struct {
@@ -141,7 +215,7 @@ func c32Run(c c32Case, st *vstat.Stats) error {
 	closed := false
 	defer func() {
 		if !closed {
-			_ = mb.Close()
+			go func() { _ = mb.Close() }() // error path: never wait for it
 		}
 	}()
 
@@ -267,15 +341,16 @@ func c32Run(c c32Case, st *vstat.Stats) error {
 				time.Sleep(3 * time.Millisecond)
 			}
 		case "close":
-			if closed {
-				// both pumps of a connection deactivate it: a second Close must be harmless
-				_ = mb.Close()
-			} else {
-				if err := mb.Close(); err != nil {
-					return fmt.Errorf("op %d: first Close failed: %v", oi, err)
-				}
-				closed = true
+			// (both pumps of a connection deactivate it: a second Close must be harmless)
+			err, hung, deadlock, ev := c32Close(mb, c32CloseWait)
+			if hung {
+				closed = true // nothing more can be done with this buffer
+				return c32HangError(st, fmt.Sprintf("op %d", oi), deadlock, ev)
 			}
+			if !closed && err != nil {
+				return fmt.Errorf("op %d: first Close failed: %v", oi, err)
+			}
+			closed = true
 		default:
 			return fmt.Errorf("unknown op %q", op.Kind)
 		}
@@ -286,10 +361,14 @@ func c32Run(c c32Case, st *vstat.Stats) error {
 		}
 	}
 	if !closed {
-		if err := mb.Close(); err != nil {
+		err, hung, deadlock, ev := c32Close(mb, c32CloseWait)
+		closed = true
+		if hung {
+			return c32HangError(st, "final Close", deadlock, ev)
+		}
+		if err != nil {
 			return fmt.Errorf("final Close failed: %v", err)
 		}
-		closed = true
 	}
 	// after Close the queue is closed: read what is left
 	deadline := time.After(60 * time.Second)
@@ -439,7 +518,20 @@ func TestC32(t *testing.T) {
 	st.Assumption("a drop is permitted only when Queue is full: with a consumer that never reads, fewer than `cap` batches at the end means nothing was dropped; with a consumer that empties Queue after every op, no drop is possible if the timer cannot fire or if cap >= accepted+1")
 	rapid.Check(t, func(rt *rapid.T) {
 		c := c32Gen(rt)
-		vstat.Run(rt, st, c, func() error { return c32Run(c, st) })
+		inconclusive := false
+		vstat.Run(rt, st, c, func() error {
+			err := c32Run(c, st)
+			if errors.Is(err, errC32Inconclusive) {
+				inconclusive = true
+				return nil
+			}
+			return err
+		})
+		if inconclusive {
+			st.Label("inconclusive-timeout")
+			rt.Log("INCONCLUSIVE: an operation did not return in time")
+			rt.SkipNow()
+		}
 	})
 }
 
@@ -456,14 +548,22 @@ func TestC32Replay(t *testing.T) {
 			if err := json.Unmarshal(raw, &cc); err != nil {
 				return err
 			}
-			return c32ConcRun(cc, vstat.New(nil, "C32", ""))
+			return c32NotInconclusive(c32ConcRun(cc, vstat.New(nil, "C32", "")))
 		}
 		var c c32Case
 		if err := json.Unmarshal(raw, &c); err != nil {
 			return err
 		}
-		return c32Run(c, vstat.New(nil, "C32", ""))
+		return c32NotInconclusive(c32Run(c, vstat.New(nil, "C32", "")))
 	})
+}
+
+func c32NotInconclusive(err error) error {
+	if errors.Is(err, errC32Inconclusive) {
+		fmt.Println("INCONCLUSIVE: an operation did not return in time (not a verdict)")
+		return nil
+	}
+	return err
 }
 
 // ---------------------------------------------------------------- concurrent senders
@@ -512,8 +612,6 @@ func c32ConcRun(c c32ConcCase, st *vstat.Stats) error {
 				err := mb.Send(msg)
 				if err == nil {
 					accepted[si] = append(accepted[si], seq)
-				} else if size > c.Max {
-					// fine
 				}
 				if err == nil && size > c.Max {
 					mu.Lock()
@@ -528,12 +626,33 @@ func c32ConcRun(c c32ConcCase, st *vstat.Stats) error {
 			}
 		}()
 	}
-	wg.Wait()
-	doClose()
+	allDone := make(chan struct{})
+	go func() {
+		wg.Wait()
+		doClose()
+		<-consumerDone
+		close(allDone)
+	}()
 	select {
-	case <-consumerDone:
-	case <-time.After(60 * time.Second):
-		return fmt.Errorf("Queue not closed after Close")
+	case <-allDone:
+	case <-time.After(3 * time.Second):
+		prev := false
+		for waited := time.Duration(0); ; waited += time.Second {
+			select {
+			case <-allDone:
+			case <-time.After(time.Second):
+				d, ev := c32DeadlockEvidence(mb)
+				if d && prev {
+					return c32HangError(st, "concurrent senders", true, ev)
+				}
+				prev = d
+				if waited > c32CloseWait {
+					return c32HangError(st, "concurrent senders", false, "")
+				}
+				continue
+			}
+			break
+		}
 	}
 	if firstErr != nil {
 		return firstErr
@@ -597,7 +716,7 @@ func c32ConcGen(rt *rapid.T) c32ConcCase {
 		total += len(s)
 		c.Senders = append(c.Senders, s)
 	}
-	c.CloseAfter = rapid.IntRange(1, total+total/2).Draw(rt, "closeAfter")
+	c.CloseAfter = rapid.IntRange(1, 3*total).Draw(rt, "closeAfter")
 	return c
 }
 
@@ -605,6 +724,19 @@ func TestC32Conc(t *testing.T) {
 	st := vstat.New(t, "C32", "concurrent mode under the race detector: 2..4 goroutines Send 1..12 tagged messages each (sizes 3..max+1) while the 1 ms timer fires, a consumer goroutine reads eagerly, Close after a generated number of sends; queue capacity = sends+2 so no drop is possible; oracle: each batch <= max and parses, per sender the emitted sequence numbers equal the accepted ones in order; non-trivial = some batch within 8 bytes of the maximum")
 	rapid.Check(t, func(rt *rapid.T) {
 		c := c32ConcGen(rt)
-		vstat.Run(rt, st, c, func() error { return c32ConcRun(c, st) })
+		inconclusive := false
+		vstat.Run(rt, st, c, func() error {
+			err := c32ConcRun(c, st)
+			if errors.Is(err, errC32Inconclusive) {
+				inconclusive = true
+				return nil
+			}
+			return err
+		})
+		if inconclusive {
+			st.Label("inconclusive-timeout")
+			rt.Log("INCONCLUSIVE: an operation did not return in time")
+			rt.SkipNow()
+		}
 	})
 }
